@@ -120,8 +120,18 @@ fn components_are_spheres(t: &Tab, a: usize) -> bool {
     (1..=ncomp).all(|c| chi[c] == 2)
 }
 
+/// far operations differ everywhere (r_02 = r_03 = r_13 = 2: no hidden branching number 2)
+fn far_differ(t: &Tab) -> bool {
+    (0..=t.dim).all(|i| ((i + 2)..=t.dim).all(|j| (1..=t.size).all(|d| t.op[i][d] != t.op[j][d])))
+}
+
 fn in_domain(t: &Tab) -> bool {
-    t.dim == 3 && t.is_complete_set() && t.far_commute() && components_are_spheres(t, 0) && components_are_spheres(t, 1)
+    t.dim == 3
+        && t.is_complete_set()
+        && t.far_commute()
+        && far_differ(t)
+        && components_are_spheres(t, 0)
+        && components_are_spheres(t, 1)
 }
 
 // ---------------------------------------------------------------------------------
